@@ -240,6 +240,115 @@ theorem C03_delete_shows_default (s : Sig) (c c' : Cfg) (k : Key) (j : Nat) (wf 
     exact viewSlots_del s c.args k hn s 0 j wf.keysNodup hk
   · cases h
 
+/-- **`cfg[a:b:st]` is list slicing**: a read by slice (any step sign) returns exactly one element
+    per selected position — none is dropped, because every selected position lies inside the
+    view (`Py.rangeList_bounds`) — namely the view's element at that position, in slice order. -/
+theorem C03_getslice_is_list_slice (s : Sig) (c : Cfg) (k : Cfg.SliceK) (vs : List Val)
+    (h : c.getSlice s k = .ok vs) :
+    ∃ a b st, Py.sliceIndices (Cfg.resolveSlice s k) (c.posView s).length = some (a, b, st) ∧
+      vs.length = (Py.rangeList a b st).length ∧
+      ∀ n (hn : n < (Py.rangeList a b st).length), vs[n]? = (c.posView s)[((Py.rangeList a b st)[n]).toNat]? := by
+  unfold Cfg.getSlice Py.getSlice at h
+  cases hsl : Py.sliceIndices (Cfg.resolveSlice s k) (c.posView s).length with
+  | none => simp [hsl] at h
+  | some t =>
+    obtain ⟨a, b, st⟩ := t
+    simp only [hsl, Except.ok.injEq] at h
+    subst h
+    have hb := Py.rangeList_bounds _ _ a b st hsl
+    have hall : ∀ i ∈ Py.rangeList a b st, ∃ x, (c.posView s)[i.toNat]? = some x := by
+      intro i hi
+      obtain ⟨h0, hlt⟩ := hb i hi
+      have : i.toNat < (c.posView s).length := by omega
+      exact ⟨(c.posView s)[i.toNat], by simp [this]⟩
+    refine ⟨a, b, st, rfl, ?_, ?_⟩
+    · generalize Py.rangeList a b st = l at hall
+      induction l with
+      | nil => simp
+      | cons i l ih =>
+        obtain ⟨x, hx⟩ := hall i (by simp)
+        simp [List.filterMap_cons, hx, ih (fun j hj => hall j (by simp [hj]))]
+    · generalize Py.rangeList a b st = l at hall
+      intro n hn
+      induction l generalizing n with
+      | nil => simp at hn
+      | cons i l ih =>
+        obtain ⟨x, hx⟩ := hall i (by simp)
+        cases n with
+        | zero => simp [List.filterMap_cons, hx]
+        | succ n' =>
+          simp only [List.filterMap_cons, hx, List.getElem?_cons_succ, List.getElem_cons_succ]
+          exact ih (fun j hj => hall j (by simp [hj])) n' (by simpa using hn)
+
+/-- The storage key `index_to_key` computes for position `i` of the fixed prefix is the key of the
+    `i`-th positional slot of the view. -/
+theorem indexToKey_prefix (s : Sig) (d : Dict Val) (i : Nat)
+    (hpre : ∀ j, j ≤ i → ∃ p, s[j]? = some p ∧ (p.kind = .po ∨ p.kind = .pk)) :
+    ∃ k, s.indexToKey (i : Int) d = .ok k ∧ (posKeys s 0)[i]? = some k := by
+  obtain ⟨p, hp, hkey⟩ := posKeys_prefix s 0 i hpre
+  have hilt : i < s.length := (List.getElem?_eq_some_iff.mp hp).1
+  obtain ⟨p', hp', hkind⟩ := hpre i (Nat.le_refl _)
+  rw [hp] at hp'; cases hp'
+  have hik : s.indexToKey (i : Int) d = .ok (if p.kind == .pk then .name p.name else .idx (i : Int)) := by
+    unfold Sig.indexToKey
+    have h1 : ¬ ((i : Int) < 0) := by omega
+    have h2 : (i : Int) < (s.length : Int) := by omega
+    have h3 : ¬ ((i : Int) < -(s.length : Int)) := by omega
+    simp only [h1, if_false, h2, if_true, h3]
+    have : Py.getIdx s (i : Int) = some p := by
+      unfold Py.getIdx
+      simp only [h1, if_false]
+      simpa using hp
+    rw [this]
+    simp only []
+    split <;> rfl
+  refine ⟨_, hik, ?_⟩
+  rw [hkey]
+  rcases hkind with e | e
+  · have : (p.kind == Kind.pk) = false := by rw [e]; rfl
+    simp [posKey, e, this]
+  · have : (p.kind == Kind.pk) = true := by rw [e]; rfl
+    simp [posKey, e, this]
+
+/-- **`del cfg[i]` inside the fixed prefix** (callables without `*args`): a set parameter becomes
+    unset — its slot shows the default, else NO_VALUE — every other slot is unchanged and the
+    list keeps its length (unlike `del` on a Python list: the prefix has a fixed length). -/
+theorem C03_delitem_shows_default (s : Sig) (c c' : Cfg) (i : Nat) (wf : ViewWF s)
+    (hvp : s.vpStart = none) (hn : c.args.NodupKeys)
+    (hpre : ∀ j, j ≤ i → ∃ p, s[j]? = some p ∧ (p.kind = .po ∨ p.kind = .pk))
+    (h : c.delItem s (i : Int) = .ok c') :
+    viewSlots s c'.args s 0 = viewSlots s c.args s 0 ∨
+    viewSlots s c'.args s 0 =
+      (viewSlots s c.args s 0).set i ((viewSlots s ([] : Dict Val) s 0).getD i .nov) := by
+  obtain ⟨k, hik, hk⟩ := indexToKey_prefix s c.args i hpre
+  unfold Cfg.delItem at h
+  have h1 : ¬ ((i : Int) < 0) := by omega
+  simp only [h1, if_false] at h
+  split at h
+  · cases h
+  · rename_i hb
+    have hlt : (i : Int) < ((s.allPositional c.args).length : Int) := by
+      simp only [Bool.or_eq_true, decide_eq_true_eq, not_or, Int.not_le] at hb
+      omega
+    unfold Cfg.delIndices at h
+    simp only [hvp, Option.getD_none] at h
+    have hs : Cfg.sortDesc [(i : Int)] = [(i : Int)] := by
+      simp [Cfg.sortDesc, Cfg.sortDesc.ins]
+    rw [hs] at h
+    simp only [Cfg.delPass, hlt, if_true, hik] at h
+    by_cases hc : c.args.contains k = true
+    · simp only [hc, if_true] at h
+      cases hd : c.delValue k with
+      | error e => simp [hd] at h
+      | ok c1 =>
+        simp only [hd, Nat.sub_self, List.range'_zero, Cfg.delCompact, Except.ok.injEq] at h
+        subst h
+        exact .inr (C03_delete_shows_default s c c1 k i wf hn hk hd)
+    · simp only [hc, Bool.false_eq_true, if_false, Nat.sub_self, List.range'_zero, Cfg.delCompact,
+        Except.ok.injEq] at h
+      subst h
+      exact .inl rfl
+
 /-! ### Attribute edits behave like a dict restricted to the signature -/
 
 /-- A name is accepted by `setattr` exactly when it names a keyword-capable parameter, or the
